@@ -373,6 +373,7 @@ def run(ctx: Ctx):
         ok = isinstance(sh, ast.Name) and sh.id == "shuffle" and isinstance(d0, ast.Name) and d0.id == dsp
     ctx.ob("C17.a", "RL4COLitModule._dataloader_single", ok, fi.loc, "the (already wrapped) dataset it is given is what the loader iterates; shuffling happens inside the loader over (instance, extra) items", construct="RL4COLitModule._dataloader_single")
     epoch_end_order(ctx)
+    fetch_protocol_agrees(ctx)
 
 
 def epoch_end_order(ctx: Ctx):
@@ -417,6 +418,34 @@ def epoch_end_order(ctx: Ctx):
                 and isinstance(n.value, ast.Call) and isinstance(n.value.func, ast.Attribute) and n.value.func.attr == "wrap_dataset" for n in ast.walk(bf.node))
     ctx.ob("C17.e", "RL4COLitModule.on_train_epoch_end:regenerated-set-is-wrapped", wraps, bf.loc,
            "self.train_dataset = self.wrap_dataset(<freshly generated set>)", construct="RL4COLitModule.on_train_epoch_end:wrap")
+
+
+def fetch_protocol_agrees(ctx: Ctx):
+    """C17.f torch's DataLoader fetches a batch through `__getitems__(indices)` when the dataset has one and through
+    `__getitem__(i)` otherwise.  For every dataset class the two must be the same view of the data: a class whose `__getitem__`
+    is overridden below the class that provides `__getitems__` (ExtraKeyDataset attaches the baseline value in `__getitem__`)
+    would be read through the parent's batched fetch and lose what the override adds."""
+    mi = ctx.repo.module_by_path(DS)
+    n = 0
+    for cname, c in sorted(mi.classes.items()):
+        mro = [k for k in ctx.repo.mro(c) if not isinstance(k, str)]
+        def owner(meth):
+            for i, k in enumerate(mro):
+                if meth in k.methods:
+                    return i, k
+            return None, None
+        i1, k1 = owner("__getitem__")
+        i2, k2 = owner("__getitems__")
+        if k1 is None:
+            continue
+        n += 1
+        ok = k2 is None or i2 <= i1
+        ctx.ob("C17.f", f"{cname}:batched-fetch-is-the-item-fetch", ok, f"{DS}:{c.node.lineno}",
+               (f"__getitem__ comes from {k1.name}; " + ("no __getitems__ in the hierarchy: the loader uses __getitem__" if k2 is None else f"__getitems__ comes from {k2.name}")) +
+               ("" if ok else f" -- the loader reads {cname} through {k2.name}.__getitems__ and never calls the override in {k1.name}"),
+               construct=f"{cname}:fetch-protocol")
+    if n < 2:
+        raise AnalysisError(f"only {n} dataset classes with __getitem__ found in {DS}")
 
 
 def run_thorough(ctx: Ctx):
